@@ -5,8 +5,8 @@ separate model on top of the same heap operators of spec/Scheduler/Scheduler.tla
 import vlib
 from framework import graph_replay
 
-MANUAL_ACTIONS = ["Schedule", "GetExpired", "Cancel", "Destroy"]
-START_ACTIONS = ["CoSleep", "CoCancel", "CoFinish", "WorkerPoll", "WorkerWait", "StartReturn", "DestroyAfterStart"]
+MANUAL_ACTIONS = ["Schedule", "GetExpired", "Cancel", "Destroy", "Construct"]
+START_ACTIONS = ["CoSleep", "CoCancel", "CoFinish", "WorkerPoll", "WorkerWait", "StartReturn", "DestroyAfterStart", "Restart"]
 
 
 def as_list(v):
